@@ -12,12 +12,14 @@ CONSTANTS AMOUNTS,     \* delegation / undelegation amounts
           NOOPBUDGET,  \* events allowed per behaviour that fail or change nothing (>= MAXOPS: unlimited)
           VSTAKERS,    \* stakers that may undelegate ("s1", "v")
           PATHS,       \* entry paths of an undelegation: "keeper" (keeper / cosmos message), "pc" (delegation precompile)
+          COVER,       \* TRUE: compute the class of every transition (class cover, see CoverEdge)
           NONEMPTY,    \* TRUE: generation never empties the validator set (the engine halts there)
           BLOCKW       \* weight of block boundaries among the successors (simulation bias; 1 for exhaustive runs)
 
-VARIABLES st, G, hist, viol, nnoop, fresh
-\* viol: property tags raised by the last step; fresh: those of them the step before did not raise
-vars == <<st, G, hist, viol, nnoop, fresh>>
+VARIABLES st, G, hist, viol, nnoop, fresh, cls
+\* viol: property tags raised by the last step; fresh: those of them the step before did not raise;
+\* cls: class of the last transition (class cover only)
+vars == <<st, G, hist, viol, nnoop, fresh, cls>>
 
 Store0 == [InitStore EXCEPT !.N = INITN, !.maxV = INITMAXV]
 
@@ -28,6 +30,8 @@ Init ==
   /\ viol = {}
   /\ nnoop = 0
   /\ fresh = {}
+  /\ cls = <<>>
+  /\ TLCSet(7, {})
 
 \* one model step = one event, ghosts and property tags evaluated exactly as in trace validation
 Same(a, b) == [a EXCEPT !.nrec = 0, !.rsp = <<>>] = [b EXCEPT !.nrec = 0, !.rsp = <<>>]
@@ -42,6 +46,54 @@ StepOf(s, g, ev, a) ==
   IN [st |-> r.st, G |-> g2, ok |-> ok,
       tags |-> IF unchanged THEN StepTags(s, r.st, ev, a, ok, g, g2) ELSE Tags(s, r.st, ev, a, ok, g, g2)]
 
+(***************************************************************************)
+(* Class of a transition (behaviour generation by class cover): the event,  *)
+(* its result, and the situation it meets - lifecycle state of the operator,*)
+(* relation of the key to the operator, where the unbonding parameter       *)
+(* stands relative to what was in force when the pending items were         *)
+(* registered, what a block boundary closes and releases.  A breadth-first  *)
+(* run with ACTION_CONSTRAINT CoverEdge prints one shortest behaviour per   *)
+(* class (one worker: the register is per thread).                          *)
+(***************************************************************************)
+OpSt(s, o) ==
+  IF s.removing[o] THEN (IF o \in Elems(s.pOpt) THEN "completing" ELSE IF o \in DOMAIN s.finish THEN "removing" ELSE "stuck")
+  ELSE IF ~s.opted[o] THEN "out"
+  ELSE IF s.jailed[o] THEN "jailed"
+  ELSE IF InVals(s, s.fwd1[o]) THEN "active"
+  ELSE IF InVals(s, s.prev[o]) THEN "prevactive"
+  ELSE "in"
+KeyRel(s, o, k) ==
+  IF s.fwd1[o] = k THEN "current"
+  ELSE IF s.rev[k] = o THEN "ownretired"
+  ELSE IF s.rev[k] # NoOp THEN (IF s.fwd1[s.rev[k]] = k THEN "othercurrent" ELSE "otherretired")
+  ELSE "free"
+Cmp(a, b) == IF a < b THEN "lt" ELSE IF a > b THEN "gt" ELSE "eq"
+\* default completion epoch now, against the epochs under which pending items were registered
+NRel(s, g) == {Cmp(s.epoch + s.N, g.due[x]) : x \in DOMAIN g.due}
+EdgeClass(s, g, ev, a, x) ==
+  LET err == IF x.ok THEN (IF Same(s, x.st) THEN "noop" ELSE "ok") ELSE "fail" IN
+  CASE ev \in {"OptIn", "SetKey"} -> <<ev, err, OpSt(s, a.o), KeyRel(s, a.o, a.k), s.prev[a.o] # NoKey, InVals(s, a.k)>>
+    [] ev = "OptOut"       -> <<ev, err, OpSt(s, a.o), s.prev[a.o] # NoKey, NRel(s, g)>>
+    [] ev = "Undelegate"   -> <<ev, err, OpSt(s, a.o), a.path,
+                                IF <<"O", a.o>> \in DOMAIN g.due THEN Cmp(s.epoch + s.N, g.due[<<"O", a.o>>]) ELSE "na",
+                                HoldOf(x.st, a.id) > 0>>
+    [] ev = "Delegate"     -> <<ev, err, OpSt(s, a.o)>>
+    [] ev \in {"Jail", "Unjail"} -> <<ev, err, IF s.rev[a.k] = NoOp THEN "none" ELSE OpSt(s, s.rev[a.k]),
+                                      IF s.rev[a.k] = NoOp THEN "free" ELSE KeyRel(s, s.rev[a.k], a.k)>>
+    [] ev = "UpdateParams" -> <<ev, err, Cmp(a.n, s.N), Cmp(a.maxVals, s.maxV), {y[1] : y \in DOMAIN g.due}>>
+    [] OTHER -> <<ev, err>>
+\* a block boundary: what the EndBlock released / handed to the engine, what the BeginBlock closed
+BlockClass(s, g, x, y) ==
+  <<"Block", g.closed # 0, {z[1] : z \in {z \in DOMAIN g.due : Released(z, s, x.st)}},
+    {IF NIsZero(x.st.rsp[i].p) THEN "remove" ELSE IF x.st.rsp[i].k \in DOMAIN s.vals THEN "change" ELSE "add" : i \in DOMAIN x.st.rsp},
+    Cardinality(DOMAIN x.st.vals) = s.maxV,
+    y.st.epoch # x.st.epoch, y.st.lag > 0,
+    {z[1] : z \in {z \in DOMAIN y.G.due : y.G.due[z] = x.st.epoch}}>>
+
+CoverEdge ==
+  \/ ~COVER
+  \/ cls' \in TLCGet(7)
+  \/ TLCSet(7, TLCGet(7) \cup {cls'}) /\ PrintT("BEHAVIOUR " \o ToJson(hist'))
 
 Do(ev, a) ==
   /\ Len(hist) < MAXOPS
@@ -50,6 +102,7 @@ Do(ev, a) ==
      /\ (~noop \/ nnoop < NOOPBUDGET)
      /\ nnoop' = IF noop /\ NOOPBUDGET < MAXOPS THEN nnoop + 1 ELSE nnoop
      /\ st' = x.st /\ G' = x.G /\ viol' = x.tags /\ fresh' = x.tags \ viol
+     /\ cls' = IF COVER THEN EdgeClass(st, G, ev, a, x) ELSE <<>>
      /\ hist' = Append(hist, [ev |-> ev, a |-> a])
 
 \* a block boundary: EndBlock of the current block, BeginBlock of the next one
@@ -61,6 +114,7 @@ DoBlock(adv) ==
      /\ NONEMPTY => DOMAIN x.st.vals # {}
      /\ st' = y.st /\ G' = y.G /\ viol' = x.tags \cup y.tags /\ fresh' = (x.tags \cup y.tags) \ viol
      /\ nnoop' = nnoop
+     /\ cls' = IF COVER THEN BlockClass(st, G, x, y) ELSE <<>>
      /\ hist' = Append(hist, [ev |-> "Block", a |-> [adv |-> adv]])
 
 Next ==
